@@ -134,3 +134,78 @@ pub fn idft_apply<const RS: usize, const AS: usize, const LR: usize, const LA: u
     core::mem::forget(table);
     vsym::reached();
 }
+
+// ---------------------------------------------------------------------------------------------
+// C07-A1 (structural layer): scalar-vector products of reference/fft64/svp.rs with the
+// substituted kernels.  The prepared scalar is a small CONCRETE Gaussian integer per column
+// (constant x symbolic products only); the vector operand and all prior output are symbolic.
+// Specification: res limb j = ppol (*) b limb j (pointwise Gaussian-integer product on the
+// (re | im) halves) for j < min(res.size, b.size), zero beyond, nothing else modified.
+use poulpy_cpu_ref::reference::fft64::svp::*;
+use poulpy_hal::layouts::SvpPPol;
+
+const PPOL: [[i64; 2]; 3] = [[3, -2], [-5, 7], [1, 4]]; // (re, im) per column, n = 2 => m = 1
+
+fn ppol_buf() -> Buf<6> {
+    Buf([PPOL[0][0], PPOL[0][1], PPOL[1][0], PPOL[1][1], PPOL[2][0], PPOL[2][1]])
+}
+
+fn gmul(p: [i64; 2], x: [i64; 2]) -> [i64; 2] {
+    [p[0].wrapping_mul(x[0]).wrapping_sub(p[1].wrapping_mul(x[1])), p[0].wrapping_mul(x[1]).wrapping_add(p[1].wrapping_mul(x[0]))]
+}
+
+/// OP: 0 svp_apply_dft (b: VecZnx) 1 svp_apply_dft_to_dft (b: VecZnxDft) 2 svp_apply_dft_to_dft_assign
+///     3 svp_prepare (res: SvpPPol <- ScalarZnx)
+pub fn svp<const RS: usize, const BS: usize, const LR: usize, const LB: usize, const OP: usize>(sel: usize) {
+    let (rc, ac, bc) = cols3(sel);
+    let pp = ppol_buf();
+    let b = Buf::<LB>::sym();
+    let before = Buf::<LR>::sym();
+    let mut res = before;
+    let table = ReimFFTTable::<f64>::new(N / 2);
+    if OP == 3 {
+        // prepare: res is an SvpPPol with COLS columns (LR == N*COLS), source a ScalarZnx (LB == N*COLS)
+        {
+            let mut r: SvpPPol<&mut [u8], Probe> = SvpPPol { data: res.bytes_mut(), n: N, cols: COLS, _phantom: PhantomData };
+            let s = b.scalar(N, COLS);
+            svp_prepare::<_, _, Probe>(&table, &mut r, rc, &s, bc);
+        }
+        let mut p = 0;
+        while p < LR {
+            let col = p / N;
+            let want = if col == rc { b.0[N * bc + p % N] } else { before.0[p] };
+            assert!(res.0[p] == want, "svp_prepare: selected column is not the (substituted) transform of the scalar / stray write");
+            p += 1;
+        }
+        core::mem::forget(table);
+        vsym::reached();
+        return;
+    }
+    {
+        let a: SvpPPol<&[u8], Probe> = SvpPPol { data: pp.bytes(), n: N, cols: COLS, _phantom: PhantomData };
+        let mut r = dft_mut(&mut res, RS, RS + 1);
+        match OP {
+            0 => {
+                let bv = b.vec(N, COLS, BS, BS);
+                svp_apply_dft::<_, _, _, Probe>(&table, &mut r, rc, &a, ac, &bv, bc)
+            }
+            1 => {
+                let bv = dft_ref(&b, BS);
+                svp_apply_dft_to_dft::<_, _, _, Probe>(&mut r, rc, &a, ac, &bv, bc)
+            }
+            _ => svp_apply_dft_to_dft_assign::<_, _, Probe>(&mut r, rc, &a, ac),
+        }
+    }
+    assert_col(&before, &res, N, COLS, rc, RS, |j, i| {
+        let x = if OP == 2 {
+            [before.at(N, COLS, rc, j, 0), before.at(N, COLS, rc, j, 1)]
+        } else if j < BS {
+            [b.at(N, COLS, bc, j, 0), b.at(N, COLS, bc, j, 1)]
+        } else {
+            [0, 0]
+        };
+        gmul(PPOL[ac], x)[i]
+    });
+    core::mem::forget(table);
+    vsym::reached();
+}
